@@ -465,6 +465,17 @@ def runOp (o : CoreOps) (toks : List String) : M String := do
     | some k => do ioConsume k; pure "-"
     | none => bad
   | ["flush"] => pure "-"
+  | ["extend_ref", m, v0] => match parseNat m, parseNat v0 with
+    | some m, some v0 => do
+      -- `Extend<&T> for T: Copy`: `push_back(*item)` for each item
+      for i in List.range m do
+        let r ← o.pushBack (⟨0, (v0 + i) % 256⟩ : Elem)
+        dropOpt r
+      pure "-"
+    | _, _ => bad
+  | ["default"] => do
+    let b ← getBuf
+    pure s!"0 0 true {b.cap}"
   | ["boxed"] => do
     let b ← getBuf
     let old ← swapIn (CB.new b.cap)
